@@ -140,3 +140,20 @@ func (c *Canary) VerifClose() {
 	}
 	syscall.Close(c.epfd)
 }
+
+// VerifSetIPID sets the IPv4 identification counter of every connection in
+// the state table, so that a monitor can drive the header checksum through
+// chosen identification values. It returns the number of connections touched.
+func (c *Canary) VerifSetIPID(id uint32) int {
+	n := 0
+	for _, s := range c.stateTable {
+		if s == nil {
+			continue
+		}
+		s.m.Lock()
+		s.ID = id
+		s.m.Unlock()
+		n++
+	}
+	return n
+}
